@@ -351,10 +351,10 @@ fn run_once(case: &Case, plan: &Plan, use64: bool) -> RunOut {
                 if quiet {
                     break;
                 }
-                let (g2, to) = shared.cv.wait_timeout(g, Duration::from_secs(30)).unwrap();
+                let (g2, to) = shared.cv.wait_timeout(g, Duration::from_secs(600)).unwrap();
                 g = g2;
                 if to.timed_out() {
-                    sched_fail("threads did not quiesce within 30 s");
+                    sched_fail("threads did not quiesce within 600 s");
                 }
             }
             let en: Vec<usize> = (0..n).filter(|&t| !g.finished[t]).collect();
